@@ -607,7 +607,10 @@ class NPProxy:
     def round(self, a, decimals=0, **kw):
         if has_sym(a):
             if decimals != 0:
-                raise HarnessError("round(decimals)")
+                # NumPy: multiply by 10**decimals, round half to even, divide again
+                sc = 10 ** int(decimals)
+                one = lambda e: (core.rne(e * sc) / sc) if _is_sym(e) else builtins.round(e, int(decimals))
+                return one(a) if _is_sym(a) else _map(one, a)
             if _is_sym(a):
                 return core.rne(a)
             return _concrete_if_const(_map(lambda e: core.rne(e) if _is_sym(e) else builtins.round(e), a))
